@@ -21,6 +21,10 @@ func Require(runtime *goja.Runtime, module *goja.Object) {
 
 	for _, e := range os.Environ() {
 		envKeyValue := strings.SplitN(e, "=", 2)
+		if len(envKeyValue) != 2 {
+			// not a NAME=value entry (possible when the parent passed a raw environment block)
+			continue
+		}
 		p.env[envKeyValue[0]] = envKeyValue[1]
 	}
 
